@@ -22,6 +22,8 @@ for d in sorted(os.listdir(os.path.join(V, "seeded"))):
     hist = (m.get("history") or "")
     if not valid:
         status = "not valid on the current tree"
+    elif det and "another check" in str(m.get("our_check_result")):
+        status = "caught as built, by another property's check"
     elif det and "MISSED" in hist.upper():
         status = "caught after strengthening"
     elif det:
@@ -43,5 +45,5 @@ else:
          "extended for the *class* of scenario (column 4) and it is now caught.\n\n" + block + "\n"
 open(p, "w").write(s)
 n = len(rows)
-print(n, "seeds;", sum("caught as built" in r for r in rows), "as built;",
-      sum("after strengthening" in r for r in rows), "after strengthening;", sum("**missed**" in r for r in rows), "missed")
+print(n, "seeds;", sum("caught as built |" in r for r in rows), "as built;",
+      sum("another property" in r for r in rows), "by another property's check;", sum("after strengthening" in r for r in rows), "after strengthening;", sum("**missed**" in r for r in rows), "missed")
